@@ -44,6 +44,10 @@ fire("C05", B, "if docstring_is_none and first_const and arg_is_string and no_ov
 fire("C05", B, "isinstance(block_type, Function) and block_type.docstring is None\n        )", "isinstance(block_type, Function) and not block_type.docstring\n        )")
 fire("C05", B, "first_const = not constants", "first_const = True")
 fire("C05", C, '    if code_data.future_annotations:\n        flags_data |= {"annotations"}', "    pass")
+# ---- C01 R01.7
+fire("C01", B, "                line_mapping.offset_to_line[len(bytes_)] = instruction.line_number\n", "", "the original defect: prefix units of an instruction have no key")
+silent(["C01", "C10"], B, "                line_mapping.offset_to_line[len(bytes_)] = instruction.line_number\n                bytes_.append(\n                    dis.opmap[instruction.name] if i == 0 else dis.EXTENDED_ARG\n                )\n                bytes_.append((arg_value >> (8 * i)) & 0xFF)\n",
+       "                bytes_.append(\n                    dis.opmap[instruction.name] if i == 0 else dis.EXTENDED_ARG\n                )\n                bytes_.append((arg_value >> (8 * i)) & 0xFF)\n            for o in range(offset, len(bytes_), 2):\n                line_mapping.offset_to_line[o] = instruction.line_number\n", "another way of keying every unit")
 # ---- C14
 fire("C14", I, "        yield self\n        for code_data in self:", "        for code_data in self:")
 fire("C14", I, "                    isinstance(arg, Constant)\n                    and isinstance(arg.constant, CodeData)\n                    and arg.constant not in seen",
